@@ -130,7 +130,8 @@ Record coord := mkCoord {
   c_finalized : bool;
   c_fired : bool;              (* ghost: the invoker's callback ran *)
   c_queued_cbs : Z;            (* ghost: number of on_queued callbacks run *)
-  c_progress_after_done : bool (* ghost: an on_progress was delivered after an on_done began *)
+  c_progress_after_done : bool; (* ghost: an on_progress was delivered after an on_done began *)
+  c_ann_started : bool         (* ghost: some announce_done for this transfer has begun *)
 }.
 
 Record stg := mkStg {
@@ -138,7 +139,8 @@ Record stg := mkStg {
   g_running : Z;
   g_workers : Z;
   g_shut : bool;
-  g_joined : bool
+  g_joined : bool;
+  g_history : list Z           (* ghost: every task ever enqueued, in order *)
 }.
 
 Record req := mkReq {
@@ -239,7 +241,7 @@ Definition bump_after_shutdown (s : state) : state :=
 
 Definition get_stage (s : state) (g : stage) : stg :=
   match g with SSub => st_sub s | SReq => st_req s | SIO => st_io s
-             | SInline => mkStg [] 0 0 false false end.
+             | SInline => mkStg [] 0 0 false false [] end.
 Definition set_stage (s : state) (g : stage) (x : stg) : state :=
   match g with
   | SSub => mkState (tasks s) (coords s) x (st_req s) (st_io s) (sems s) (reqs s) (uploads s)
@@ -274,35 +276,40 @@ Definition with_released (x : task) : task :=
 Definition c_with (x : coord) (st : status) (e : option Z) : coord :=
   mkCoord (c_id x) st e (c_cleanups x) (c_callbacks x) (c_event x) (c_cl_runner x) (c_cb_runner x)
           (c_owing x) (c_announcers x) (c_ran_cleanups x) (c_ran_callbacks x)
-          (c_count x) (c_finalized x) (c_fired x) (c_queued_cbs x) (c_progress_after_done x).
+          (c_count x) (c_finalized x) (c_fired x) (c_queued_cbs x) (c_progress_after_done x) (c_ann_started x).
 Definition c_with_lists (x : coord) (cl cb : list Z) : coord :=
   mkCoord (c_id x) (c_status x) (c_exc x) cl cb (c_event x) (c_cl_runner x) (c_cb_runner x)
           (c_owing x) (c_announcers x) (c_ran_cleanups x) (c_ran_callbacks x)
-          (c_count x) (c_finalized x) (c_fired x) (c_queued_cbs x) (c_progress_after_done x).
+          (c_count x) (c_finalized x) (c_fired x) (c_queued_cbs x) (c_progress_after_done x) (c_ann_started x).
 Definition c_with_event (x : coord) : coord :=
   mkCoord (c_id x) (c_status x) (c_exc x) (c_cleanups x) (c_callbacks x) true (c_cl_runner x) (c_cb_runner x)
           (c_owing x) (c_announcers x) (c_ran_cleanups x) (c_ran_callbacks x)
-          (c_count x) (c_finalized x) (c_fired x) (c_queued_cbs x) (c_progress_after_done x).
+          (c_count x) (c_finalized x) (c_fired x) (c_queued_cbs x) (c_progress_after_done x) (c_ann_started x).
 Definition c_with_runners (x : coord) (cl cb : option actor) : coord :=
   mkCoord (c_id x) (c_status x) (c_exc x) (c_cleanups x) (c_callbacks x) (c_event x) cl cb
           (c_owing x) (c_announcers x) (c_ran_cleanups x) (c_ran_callbacks x)
-          (c_count x) (c_finalized x) (c_fired x) (c_queued_cbs x) (c_progress_after_done x).
+          (c_count x) (c_finalized x) (c_fired x) (c_queued_cbs x) (c_progress_after_done x) (c_ann_started x).
 Definition c_with_ann (x : coord) (owing : list actor) (ann : list (actor * Z)) : coord :=
   mkCoord (c_id x) (c_status x) (c_exc x) (c_cleanups x) (c_callbacks x) (c_event x) (c_cl_runner x) (c_cb_runner x)
           owing ann (c_ran_cleanups x) (c_ran_callbacks x)
-          (c_count x) (c_finalized x) (c_fired x) (c_queued_cbs x) (c_progress_after_done x).
+          (c_count x) (c_finalized x) (c_fired x) (c_queued_cbs x) (c_progress_after_done x) (c_ann_started x).
 Definition c_with_ran (x : coord) (rcl rcb : list Z) : coord :=
   mkCoord (c_id x) (c_status x) (c_exc x) (c_cleanups x) (c_callbacks x) (c_event x) (c_cl_runner x) (c_cb_runner x)
           (c_owing x) (c_announcers x) rcl rcb
-          (c_count x) (c_finalized x) (c_fired x) (c_queued_cbs x) (c_progress_after_done x).
+          (c_count x) (c_finalized x) (c_fired x) (c_queued_cbs x) (c_progress_after_done x) (c_ann_started x).
 Definition c_with_count (x : coord) (n : Z) (fin fired : bool) : coord :=
   mkCoord (c_id x) (c_status x) (c_exc x) (c_cleanups x) (c_callbacks x) (c_event x) (c_cl_runner x) (c_cb_runner x)
           (c_owing x) (c_announcers x) (c_ran_cleanups x) (c_ran_callbacks x)
-          n fin fired (c_queued_cbs x) (c_progress_after_done x).
+          n fin fired (c_queued_cbs x) (c_progress_after_done x) (c_ann_started x).
 Definition c_with_ghost (x : coord) (q : Z) (pad : bool) : coord :=
   mkCoord (c_id x) (c_status x) (c_exc x) (c_cleanups x) (c_callbacks x) (c_event x) (c_cl_runner x) (c_cb_runner x)
           (c_owing x) (c_announcers x) (c_ran_cleanups x) (c_ran_callbacks x)
-          (c_count x) (c_finalized x) (c_fired x) q pad.
+          (c_count x) (c_finalized x) (c_fired x) q pad (c_ann_started x).
+
+Definition c_with_started (x : coord) : coord :=
+  mkCoord (c_id x) (c_status x) (c_exc x) (c_cleanups x) (c_callbacks x) (c_event x) (c_cl_runner x) (c_cb_runner x)
+          (c_owing x) (c_announcers x) (c_ran_cleanups x) (c_ran_callbacks x)
+          (c_count x) (c_finalized x) (c_fired x) (c_queued_cbs x) (c_progress_after_done x) true.
 
 (** ** Helpers for guards *)
 Definition mem_z (x : Z) (l : list Z) : bool := existsb (Z.eqb x) l.
@@ -317,6 +324,9 @@ Definition ann_set (a : actor) (p : Z) (l : list (actor * Z)) : list (actor * Z)
   (a, p) :: filter (fun q => negb (fst q =? a)) l.
 Definition ann_del (a : actor) (l : list (actor * Z)) : list (actor * Z) :=
   filter (fun q => negb (fst q =? a)) l.
+
+Definition past_main (v : tst) : bool :=
+  match v with TPost | TAnn | TAnnDone | TEnded => true | _ => false end.
 
 (** an inline child of [a] that has not ended: [a] is busy executing it *)
 Definition busy (s : state) (a : actor) : bool :=
@@ -422,14 +432,14 @@ Definition step (s : state) (e : event) : option state :=
   | ENewTransfer a t =>
       if is_user a && match find_coord t (coords s) with None => true | Some _ => false end
       then Some (set_coords s (coords s ++
-             [mkCoord t NotStarted None [] [] false None None [] [] [] [] 0 false false 0 false]))
+             [mkCoord t NotStarted None [] [] false None None [] [] [] [] 0 false false 0 false false]))
       else None
 
   | EAddCallback a t c =>
       (* registered by the user thread before submission, or by code acting for t *)
       if is_user a || acting_task s a t || in_callback s a t
       then on_coord s t (fun x =>
-             if mem_z c (c_callbacks x) then None
+             if mem_z c (c_callbacks x) || mem_z c (c_ran_callbacks x) then None
              else Some (c_with_lists x (c_cleanups x) (c_callbacks x ++ [c])))
       else None
 
@@ -458,7 +468,21 @@ Definition step (s : state) (e : event) : option state :=
         | Some x => if k_kind x =? KSubmission then k_phase x =? 2 else true
         | None => true
         end in
+      (* plan facts (plan_wf; validated on every explored run, assumed by the
+         theorems): the final task of a transfer is submitted last, and when it is
+         submitted every other task of the transfer is one of its dependencies,
+         or is past its main, or sits before it in the single-worker IO queue,
+         or is the submission task / the submitter itself *)
+      let no_final_yet := negb (existsb (fun x => (k_t x =? t) && k_final x) (tasks s)) in
+      let final_ok :=
+        if final then
+          forallb (fun x =>
+            negb (k_t x =? t) || (k_kind x =? KSubmission) || (k_id x =? a)
+            || mem_z (k_id x) deps || past_main (k_st x)
+            || (stage_eqb (k_stage x) SIO && stage_eqb g SIO)) (tasks s)
+        else true in
       if fresh && who_ok && deps_ok && coord_ok && phase_ok && kind_stage_ok kind g && (0 <=? k)
+         && no_final_yet && final_ok
       then Some (set_tasks s (tasks s ++
              [mkTask k t g a final deps kind
                      (if stage_eqb g SInline then TQueued else TSubmitting)
@@ -484,7 +508,7 @@ Definition step (s : state) (e : event) : option state :=
              && negb (g_shut g) && negb (stage_eqb (k_stage x) SInline)
           then Some (set_stage (set_tasks s (upd_task k (fun y => with_st y TQueued) (tasks s)))
                                (k_stage x)
-                               (mkStg (g_queue g ++ [k]) (g_running g) (g_workers g) (g_shut g) (g_joined g)))
+                               (mkStg (g_queue g ++ [k]) (g_running g) (g_workers g) (g_shut g) (g_joined g) (g_history g ++ [k])))
           else None
       | None => None
       end
@@ -511,7 +535,7 @@ Definition step (s : state) (e : event) : option state :=
                 if (h =? k) && tst_eqb (k_st x) TQueued && (g_running g <? g_workers g)
                 then Some (set_stage (set_tasks s (upd_task k (fun y => with_st y TStarted) (tasks s)))
                                      (k_stage x)
-                                     (mkStg rest (g_running g + 1) (g_workers g) (g_shut g) (g_joined g)))
+                                     (mkStg rest (g_running g + 1) (g_workers g) (g_shut g) (g_joined g) (g_history g)))
                 else None
             | [] => None
             end
@@ -683,7 +707,7 @@ Definition step (s : state) (e : event) : option state :=
           | None =>
               if mem_z a (c_owing c)
               then (* cancel() found the transfer not started: the canceller announces *)
-                on_coord s t (fun c0 => Some (c_with_ann c0 (remove_z a (c_owing c0)) (ann_set a 0 (c_announcers c0))))
+                on_coord s t (fun c0 => Some (c_with_started (c_with_ann c0 (remove_z a (c_owing c0)) (ann_set a 0 (c_announcers c0)))))
               else
                 match find_task a (tasks s) with
                 | Some x =>
@@ -691,11 +715,11 @@ Definition step (s : state) (e : event) : option state :=
                     else if k_kind x =? KSubmission
                     then (* error path of the submission task, after the wait *)
                       if tst_eqb (k_st x) TMain && (k_phase x =? 4)
-                      then on_coord s t (fun c0 => Some (c_with_ann c0 (c_owing c0) (ann_set a 0 (c_announcers c0))))
+                      then on_coord s t (fun c0 => Some (c_with_started (c_with_ann c0 (c_owing c0) (ann_set a 0 (c_announcers c0)))))
                       else None
                     else (* the final task, after its done-callbacks *)
                       if tst_eqb (k_st x) TPost && k_final x
-                      then bind (on_coord s t (fun c0 => Some (c_with_ann c0 (c_owing c0) (ann_set a 0 (c_announcers c0)))))
+                      then bind (on_coord s t (fun c0 => Some (c_with_started (c_with_ann c0 (c_owing c0) (ann_set a 0 (c_announcers c0))))))
                                 (fun s1 => on_task s1 a (fun y => Some (with_st y TAnn)))
                       else None
                 | None => None
@@ -808,7 +832,7 @@ Definition step (s : state) (e : event) : option state :=
             else
               let g := get_stage s1 (k_stage x) in
               Some (set_stage s1 (k_stage x)
-                      (mkStg (g_queue g) (g_running g - 1) (g_workers g) (g_shut g) (g_joined g)))
+                      (mkStg (g_queue g) (g_running g - 1) (g_workers g) (g_shut g) (g_joined g) (g_history g)))
           else None
       | None => None
       end
@@ -854,7 +878,11 @@ Definition step (s : state) (e : event) : option state :=
         else
           match find_task a (tasks s) with
           | Some x => (k_t x =? t) && tst_eqb (k_st x) TMain && kind_allows (k_kind x) op
-                      && (if k_kind x =? KSubmission then k_phase x =? 2 else true)
+                      && (if k_kind x =? KSubmission
+                          then (k_phase x =? 2)
+                               (* size discovery precedes every submission *)
+                               && forallb (fun y => negb (k_t y =? t) || (k_kind y =? KSubmission)) (tasks s)
+                          else true)
           | None => false
           end in
       if fresh && who_ok then
@@ -936,14 +964,14 @@ Definition step (s : state) (e : event) : option state :=
   | EStageShutdown g =>
       if (shutdown_phase s =? 1) && negb (stage_eqb g SInline) then
         let x := get_stage s g in
-        Some (set_stage s g (mkStg (g_queue x) (g_running x) (g_workers x) true (g_joined x)))
+        Some (set_stage s g (mkStg (g_queue x) (g_running x) (g_workers x) true (g_joined x) (g_history x)))
       else None
 
   | EStageJoined g =>
       let x := get_stage s g in
       if g_shut x && (g_running x =? 0) && (match g_queue x with [] => true | _ => false end)
          && negb (stage_eqb g SInline)
-      then Some (set_stage s g (mkStg (g_queue x) (g_running x) (g_workers x) true true))
+      then Some (set_stage s g (mkStg (g_queue x) (g_running x) (g_workers x) true true (g_history x)))
       else None
 
   | EShutdownReturn =>
@@ -966,6 +994,6 @@ Fixpoint run_idx (s : state) (tr : list event) (i : nat) : state * option nat :=
 
 Definition init (w_sub w_req w_io q_sub q_req q_io mem_up mem_down : Z) : state :=
   mkState [] []
-          (mkStg [] 0 w_sub false false) (mkStg [] 0 w_req false false) (mkStg [] 0 w_io false false)
+          (mkStg [] 0 w_sub false false []) (mkStg [] 0 w_req false false []) (mkStg [] 0 w_io false false [])
           [(SEM_SUB, q_sub); (SEM_REQ, q_req); (SEM_IO, q_io); (SEM_UP, mem_up); (SEM_DOWN, mem_down)]
           [] [] 0 0.
